@@ -159,3 +159,38 @@ Definition enc_bfs (l : list node_nss) : list N :=
   N.of_nat (length l) :: flat_map (fun nn => (N.of_nat (length (fst nn)) :: fst nn)
      ++ N.of_nat (length (snd nn)) :: flat_map (fun s => N.of_nat (length s) :: s) (snd nn)) l.
 Definition res_pmap_or_empty (r : res pmap) : pmap := match r with Ok pm => pm | _ => [] end.
+
+(* ---- the clauses of C13 on a prefix table (spec; proved of `collect` in PrefixFacts.v) ------------
+   nss: the namespaces occurring in the tree (element and attribute namespaces, "" = no namespace) *)
+Record c13_clauses (caller : caller_map) (nss : list str) (pm : pmap) : Prop := {
+  (* every namespace occurring in the tree is bound ... *)
+  c_covers : forall n, In n nss -> exists p, dict_get n pm = Some p;
+  (* ... to exactly one prefix (the table is a function), different namespaces to different prefixes *)
+  c_function : NoDup (dict_keys pm);
+  c_injective : forall n n' p, dict_get n pm = Some p -> dict_get n' pm = Some p -> n = n';
+  (* names in no namespace are written without prefix and never fall under a default namespace *)
+  c_empty : In [] nss ->
+            dict_get [] pm = Some [] /\ (forall n, n <> [] -> dict_get n pm <> Some [])
+            /\ ~ In XMLNS_ (dict_keys (declared_attributes pm));
+  (* a namespace for which the caller supplied a non-empty prefix is written with that prefix *)
+  c_caller : forall p n, p <> [] -> n <> [] -> In (Some p, n) caller -> In n nss ->
+             dict_get n pm = Some (p ++ [COLON]);
+  (* the xml (and xmlns) prefix is never remapped ... *)
+  c_xml : forall n p, In (n, p) pm ->
+          (p = XML_ ++ [COLON] <-> n = xml_ns) /\ (p = XMLNS_ ++ [COLON] <-> n = xmlns_ns);
+  (* ... and never declared *)
+  c_xml_decl : ~ In (XMLNS_ ++ [COLON] ++ XML_) (dict_keys (declared_attributes pm))
+               /\ ~ In (XMLNS_ ++ [COLON] ++ XMLNS_) (dict_keys (declared_attributes pm));
+}.
+
+(* all namespaces of a tree, and their number *)
+Definition tree_nss (t : node) : list str := flat_map (fun nn => fst nn :: snd nn) (bfs_of t).
+Fixpoint dedup (l : list str) : list str :=
+  match l with [] => [] | x :: r => if py_in_str x r then dedup r else x :: dedup r end.
+Definition n_namespaces (t : node) : nat := length (dedup (tree_nss t)).
+
+(* prefixes are names without a colon (what XML requires of a prefix; the code does not check it) *)
+Definition colon_free (s : str) : Prop := ~ In COLON s.
+Definition caller_prefixes_colon_free (c : caller_map) : Prop := forall k n, In (k, n) c -> colon_free (caller_prefix (k, n)).
+(* an attribute key that an XML reader takes for a namespace declaration *)
+Definition is_decl_key (k : str) : bool := (str_eqb k XMLNS_ || py_startswith k (XMLNS_ ++ [COLON]))%bool.
